@@ -1,5 +1,175 @@
-From Label Require Import LModel Iso Linear GenLabelFacts.
+(** C16 -- the linear label model tracks the isotopomer model's positional enrichment.
+
+    ONLY theorem statements (written out in full), each closed by [exact <lemma>] and followed by
+    [Print Assumptions].  Models: coq/label/Linear.v (src/mxlpy/linear_label_map.py statement by statement) and
+    coq/label/Iso.v (label_map.py, property C05).  [gen_label_facts] is REGENERATED from /repo on every run;
+    [C16_facts_pinned] breaks when the reading direction used by LinearLabelMapper.build_model, the shape of
+    any helper / of the reaction loop, the isotopomer mapper's reading direction or its external-label
+    character changes.  Statements that mention [f_lin_dir gen_label_facts] / [ext_bit_of gen_label_facts]
+    type-check only while /repo reads a map in the DOCUMENTED direction (product position i <- substrate
+    position map[i]; repair fixes/C16-map-direction.diff) and external positions enter as "1".
+
+    Numbers: every statement is for an ARBITRARY commutative ring R (Leibniz equality, [ring_theory]) with a
+    ring morphism ofZ from Z and a function rinv used as 1/pool (only [P * rinv P = 1] is ever required, and
+    only where stated): Q, R, Z/p ... are instances.
+
+    Modelled class (the hypotheses of C16_enrichment_rate, per mapped reaction): mass action (rate = product of
+    its arguments: every substrate once + unlabelled constants), no compound twice on the substrate side (C05's
+    homodimer finding), every compound of the reaction labelled (the linear mapper raises KeyError otherwise),
+    the map a bijection of the positions 0 .. max(substrate atoms, product atoms)-1 (atoms are neither
+    duplicated nor lost; merges and splits of COMPOUNDS, external positions and non-involutive permutations are
+    covered), the supplied pool sizes / fluxes are those of the isotopomer state (pool = sum of the isotopomers,
+    flux = rate at the pools).  Every reaction that touches a labelled compound is mapped. *)
+From Coq Require Import List ZArith NArith Bool Arith Permutation Ring.
+From MxlBase Require Import ListX.
+From Label Require Import LModel Iso Linear GenLabelFacts Algebra IsoProofs IsoPropsZ LinearProofs LinearProps.
+Import ListNotations.
+
 Theorem C16_facts_pinned :
-  f_lin_dir gen_label_facts = DirInverse /\ f_lin_helpers gen_label_facts = true /\ f_iso_dir gen_label_facts = IsoDocumented.
+  f_lin_dir gen_label_facts = DirDocumented /\ f_lin_helpers gen_label_facts = true /\
+  f_iso_dir gen_label_facts = IsoDocumented /\ f_ext_bit gen_label_facts = Some true.
 Proof. vm_compute. repeat split. Qed.
 Print Assumptions C16_facts_pinned.
+
+(** C16, main statement.  For all label counts, all lists of mapped reactions in the modelled class, all
+    isotopomer states envI and the linear state envL carrying the same pools, fluxes and enrichments
+    (enrichment * pool = marginal sum of the isotopomers carrying that position), external pool fully labelled:
+    the derivative the linear model assigns to position i of compound c is (1/pool) * the marginal sum of the
+    isotopomer model's derivatives; and at a metabolic steady state (pool of c stationary in the isotopomer
+    model, dP = 0) that is exactly the derivative of the enrichment m/P (quotient rule, cross-multiplied). *)
+Theorem C16_enrichment_rate :
+  forall (R : Type) (rO rI : R) (radd rmul rsub : R -> R -> R) (ropp rinv : R -> R) (ofZ : Z -> R),
+    ring_theory rO rI radd rmul rsub ropp eq ->
+    ofZ 0%Z = rO -> ofZ 1%Z = rI ->
+    (forall a b : Z, ofZ (a + b)%Z = radd (ofZ a) (ofZ b)) ->
+    (forall a : Z, ofZ (- a)%Z = ropp (ofZ a)) ->
+    forall (lv : label_vars) (rms : list (brxn * list Z)) (envI envL : lname -> R)
+           (isos : list (N * list lname)) (irs lrs : list (list lrxn)),
+      Forall (fun rm =>
+                let r := fst rm in
+                let bs := subs_of (r_stoich r) in let bp := prods_of (r_stoich r) in
+                exists (extra : list N) (mun : list nat),
+                  r_fn r = FProd /\ Permutation (r_args r) (bs ++ extra) /\ NoDup (map fst (r_stoich r)) /\ NoDup bs /\
+                  (forall a, In a extra -> ~ In a bs /\ ~ In a bp /\ nlab lv a = O) /\
+                  (forall c, In c (bs ++ bp) -> O < nlab lv c) /\
+                  snd rm = map Z.of_nat mun /\
+                  Permutation mun (seq O (Nat.max (total (labels_per lv bs)) (total (labels_per lv bp)))) /\
+                  envL (LPlain (r_name r)) = prodR R rI rmul (map (benv R rO radd lv envI) (r_args r))) rms ->
+      collect (map (fun rm => create_iso_rxns (ext_bit_of gen_label_facts) lv (fst rm) (snd rm)) rms) = Ok irs ->
+      lin_isotopomers lv = Ok isos ->
+      collect (map (fun rm => lin_rxns (f_lin_dir gen_label_facts) isos (fst rm) (snd rm)) rms) = Ok lrs ->
+      (forall c, O < nlab lv c -> envL (LPlain c) = benv R rO radd lv envI c) ->
+      (forall c j, j < nlab lv c ->
+         rmul (envL (LPos c (Z.of_nat j))) (envL (LPlain c)) = marg R rO rI radd rmul envI lv c j) ->
+      envL LExt = rI ->
+      forall c i, i < nlab lv c ->
+        let P := envL (LPlain c) in
+        let m := marg R rO rI radd rmul envI lv c i in
+        let dm := sumR R rO radd (map (fun bits => rmul (bit R rO rI bits i)
+                                                       (deriv R rO rI radd rmul ropp rinv ofZ envI (concat irs) (iso_name c bits)))
+                                      (all_patterns (nlab lv c))) in
+        let dP := sumR R rO radd (map (fun bits => deriv R rO rI radd rmul ropp rinv ofZ envI (concat irs) (iso_name c bits))
+                                      (all_patterns (nlab lv c))) in
+        deriv R rO rI radd rmul ropp rinv ofZ envL (concat lrs) (LPos c (Z.of_nat i)) = rmul (rinv P) dm
+        /\ (rmul P (rinv P) = rI -> dP = rO ->
+            rmul (deriv R rO rI radd rmul ropp rinv ofZ envL (concat lrs) (LPos c (Z.of_nat i))) (rmul P P)
+            = rsub (rmul dm P) (rmul m dP)).
+Proof. exact enrichment_rate_steady. Qed.
+Print Assumptions C16_enrichment_rate.
+
+(** regression witness for the PRE-REPAIR reading direction (fact value DirInverse: res[map[j]] = substrate j,
+    the inverse permutation): with that fact the one-reaction statement fails for the 3-cycle [1;2;0] -- all
+    hypotheses hold, the isotopomer model raises the enrichment of B's position 2 at rate 1, the linear model
+    at rate 0.  (For involutive maps the two directions coincide, which is why identity / reversal maps cannot
+    see it.) *)
+Theorem C16_direction_prefix_refuted :
+  exists (lv : label_vars) (r : brxn) (extra : list N) (mun : list nat) (envI envL : lname -> Z)
+         (isos : list (N * list lname)) (irxns lrxns : list lrxn) (c : N) (i : nat),
+    let bs := subs_of (r_stoich r) in let bp := prods_of (r_stoich r) in
+    r_fn r = FProd /\ Permutation (r_args r) (bs ++ extra) /\ NoDup (map fst (r_stoich r)) /\ NoDup bs /\
+    (forall a, In a extra -> ~ In a bs /\ ~ In a bp /\ nlab lv a = 0) /\
+    (forall c, In c (bs ++ bp) -> 0 < nlab lv c) /\
+    Permutation mun (seq 0 (Nat.max (total (labels_per lv bs)) (total (labels_per lv bp)))) /\
+    create_iso_rxns true lv r (map Z.of_nat mun) = Ok irxns /\
+    lin_isotopomers lv = Ok isos /\
+    lin_rxns DirInverse isos r (map Z.of_nat mun) = Ok lrxns /\
+    (forall c, In c (bs ++ bp) -> envL (LPlain c) = benv Z 0%Z Z.add lv envI c /\ (envL (LPlain c) * idZ (envL (LPlain c)) = 1)%Z) /\
+    envL (LPlain (r_name r)) = prodR Z 1%Z Z.mul (map (benv Z 0%Z Z.add lv envI) (r_args r)) /\
+    (forall c j, In c bs -> j < nlab lv c ->
+       (envL (LPos c (Z.of_nat j)) * envL (LPlain c))%Z = marg Z 0%Z 1%Z Z.add Z.mul envI lv c j) /\
+    envL LExt = 1%Z /\
+    In c (bs ++ bp) /\ i < nlab lv c /\
+    deriv Z 0%Z 1%Z Z.add Z.mul Z.opp idZ idZ envL lrxns (LPos c (Z.of_nat i)) = 0%Z /\
+    (idZ (envL (LPlain c))
+     * sumR Z 0%Z Z.add (map (fun bits => bit Z 0%Z 1%Z bits i
+                                          * deriv Z 0%Z 1%Z Z.add Z.mul Z.opp idZ idZ envI irxns (iso_name c bits))
+                             (all_patterns (nlab lv c))))%Z = 1%Z.
+Proof. exact direction_refuted_inverse. Qed.
+Print Assumptions C16_direction_prefix_refuted.
+
+(** for any external enrichment e, uniform enrichment of all positions equal to the external pool is stationary
+    (network balanced for c at the supplied fluxes: sum over the mapped reactions of coefficient * flux = 0) *)
+Theorem C16_uniform_stationary :
+  forall (R : Type) (rO rI : R) (radd rmul rsub : R -> R -> R) (ropp rinv : R -> R) (ofZ : Z -> R),
+    ring_theory rO rI radd rmul rsub ropp eq ->
+    ofZ 0%Z = rO -> ofZ 1%Z = rI ->
+    (forall a b : Z, ofZ (a + b)%Z = radd (ofZ a) (ofZ b)) ->
+    (forall a : Z, ofZ (- a)%Z = ropp (ofZ a)) ->
+    forall (lv : label_vars) (rms : list (brxn * list Z)) (env : lname -> R) (e : R)
+           (isos : list (N * list lname)) (lrs : list (list lrxn)),
+      Forall (fun rm =>
+                let r := fst rm in
+                let bs := subs_of (r_stoich r) in let bp := prods_of (r_stoich r) in
+                NoDup (map fst (r_stoich r)) /\
+                (forall c, In c (bs ++ bp) -> O < nlab lv c) /\
+                exists mun : list nat,
+                  snd rm = map Z.of_nat mun /\
+                  Permutation mun (seq O (Nat.max (total (labels_per lv bs)) (total (labels_per lv bp))))) rms ->
+      lin_isotopomers lv = Ok isos ->
+      collect (map (fun rm => lin_rxns (f_lin_dir gen_label_facts) isos (fst rm) (snd rm)) rms) = Ok lrs ->
+      env LExt = e -> (forall c j, env (LPos c j) = e) ->
+      forall c i, i < nlab lv c ->
+        sumR R rO radd (map (fun rm => rmul (ofZ (match getN c (r_stoich (fst rm)) with Some v => v | None => 0%Z end))
+                                            (env (LPlain (r_name (fst rm))))) rms) = rO ->
+        deriv R rO rI radd rmul ropp rinv ofZ env (concat lrs) (LPos c (Z.of_nat i)) = rO.
+Proof. exact uniform_stationary_model. Qed.
+Print Assumptions C16_uniform_stationary.
+
+(** with no external and no initial label none appears: for EVERY input on which LinearLabelMapper.build_model
+    succeeds (any maps, any reading direction), at the all-zero labelling state with EXT = 0 every derivative is 0 *)
+Theorem C16_no_label_stays_zero :
+  forall (R : Type) (rO rI : R) (radd rmul rsub : R -> R -> R) (ropp rinv : R -> R) (ofZ : Z -> R),
+    ring_theory rO rI radd rmul rsub ropp eq ->
+    forall (dir : direction) (lv : label_vars) (lmaps : label_maps) (init : option init_labels)
+           (concs fluxes : list (N * QArith_base.Q)) (ext : QArith_base.Q) (rxns : list brxn)
+           (m : lmodel QArith_base.Q) (env : lname -> R) (X : lname),
+      build_linear dir lv lmaps init concs fluxes ext rxns = Ok m ->
+      env LExt = rO -> (forall c j, env (LPos c j) = rO) ->
+      deriv R rO rI radd rmul ropp rinv ofZ env (lm_rxns m) X = rO.
+Proof. exact no_label_build_linear. Qed.
+Print Assumptions C16_no_label_stays_zero.
+
+(** non-vacuity: A(3) -> B(3), rate k*A, the 3-cycle [1;2;0] (not an involution), pools 1, flux 1, all of A in
+    isotopomer 100: every hypothesis of C16_enrichment_rate holds and both models are built (8 isotopomer
+    reactions, 3 label transfers) *)
+Example C16_nonvacuous :
+  let rms := [(rf_rxn, map Z.of_nat rf_map)] in
+  Forall (fun rm =>
+            let r := fst rm in
+            let bs := subs_of (r_stoich r) in let bp := prods_of (r_stoich r) in
+            exists (extra : list N) (mun : list nat),
+              r_fn r = FProd /\ Permutation (r_args r) (bs ++ extra) /\ NoDup (map fst (r_stoich r)) /\ NoDup bs /\
+              (forall a, In a extra -> ~ In a bs /\ ~ In a bp /\ nlab rf_lv a = O) /\
+              (forall c, In c (bs ++ bp) -> O < nlab rf_lv c) /\
+              snd rm = map Z.of_nat mun /\
+              Permutation mun (seq O (Nat.max (total (labels_per rf_lv bs)) (total (labels_per rf_lv bp)))) /\
+              rf_envL (LPlain (r_name r)) = prodR Z 1%Z Z.mul (map (benv Z 0%Z Z.add rf_lv rf_envI) (r_args r))) rms /\
+  (exists irs, collect (map (fun rm => create_iso_rxns true rf_lv (fst rm) (snd rm)) rms) = Ok irs /\ length (concat irs) = 8) /\
+  (exists isos lrs, lin_isotopomers rf_lv = Ok isos /\
+                    collect (map (fun rm => lin_rxns DirDocumented isos (fst rm) (snd rm)) rms) = Ok lrs /\ length (concat lrs) = 3) /\
+  (forall c, O < nlab rf_lv c -> rf_envL (LPlain c) = benv Z 0%Z Z.add rf_lv rf_envI c) /\
+  (forall c j, j < nlab rf_lv c ->
+     (rf_envL (LPos c (Z.of_nat j)) * rf_envL (LPlain c))%Z = marg Z 0%Z 1%Z Z.add Z.mul rf_envI rf_lv c j) /\
+  rf_envL LExt = 1%Z.
+Proof. exact enrichment_nonvacuous. Qed.
+Print Assumptions C16_nonvacuous.
